@@ -280,6 +280,15 @@ def run(ctx) -> None:
             # block-end waits are ended by End block, not by force
             if "has_only_trailing_whitespace" in cond:
                 continue   # blank/comment lines are not run-log items and are never offered as cancellable/forcible
+            # a wait behind the walk of the instruction's own body: the instruction has run, it is no longer offered as
+            # cancellable or forcible (NodeWithCondition.cancellable/forcible require `not activated`, decided by R12e)
+            npar_ = m.node.args.args[1].arg if len(m.node.args.args) > 1 else None
+            walks_ = [x for x in g.nodes if x.ast is not None and any(call_attr(c) == "_visit_children" and c.args and norm(c.args[0]) == npar_
+                                                                       for c in x.calls())]
+            lnodes = [x for x in g.nodes if x.kind == "test" and x.ast is n.test]
+            if walks_ and lnodes and all(any(g.dominates(w_, ln) for w_ in walks_) for ln in lnodes):
+                ctx.ok("R12c", inst + " (behind the body walk: the instruction is not offered any more)", trivial=True)
+                continue
             if "block_ended" in cond or "children_complete" in cond or "lock" in cond:
                 ctx.ok("R12c", inst + " (ended by End block, not forcible)", trivial=True)
                 continue
